@@ -143,7 +143,7 @@ def mk_records_sharing_lists(api, order, rng):
     return out
 
 
-def build(api, recs, delimiter, rng, how=None, share_lists=False):
+def build(api, recs, delimiter, rng, how=None, share_lists=False, rejections=True):
     """Build a real converter from plain records: constructor or incremental, in a random order.
 
     One build in four runs with the monitors switched off (monitors read public attributes such as `trie`, and an
@@ -164,6 +164,8 @@ def build(api, recs, delimiter, rng, how=None, share_lists=False):
     else:
         c, how = _build(api, recs, delimiter, rng, how)
     c, how = _circumstance(api, c, delimiter, rng, how)
+    if rejections and rng.random() < 0.3 and not any(x in sp_ for r in recs for sp_ in (*spec.all_p(r), *spec.all_u(r)) for x in ("zzghost", "zz.ghost")):
+        rejected_registrations(api, c, rng)
     if probe.S.prop in UNIQUE_RECORD_PROPS:
         # "its unique record": a converter grown from a clash-free map through the public API has one owner per string
         probe.evaluated("built-converter-has-one-owner-per-string")
@@ -176,6 +178,42 @@ def build(api, recs, delimiter, rng, how=None, share_lists=False):
 
 _SUBCLASS = {}
 ORIG_PREFIX, ORIG_URI = "zzorig", "http://zz.orig/"  # registered on the original of a copied converter after the copy was taken
+GHOST_PREFIXES = ["zzghost", "zzghost2"]  # strings of registrations that must be rejected (rejected_registrations)
+GHOST_URIS = ["http://zz.ghost/", "http://zz.ghost2/"]
+SPECIAL_PREFIXES = [ORIG_PREFIX, *GHOST_PREFIXES]  # no converter of any workload may ever know these
+SPECIAL_URIS = [ORIG_URI, *GHOST_URIS]
+
+
+def rejected_registrations(api, c, rng):
+    """Attempt registrations that correct code must reject with ValueError and that must leave nothing behind: their
+    fresh strings (GHOST_*) come before the clashing one in every field order, and a merging record that bridges two
+    existing records.  Whatever the attempt leaves in a lookup structure shows when the ghost strings are asked."""
+    recs = spec.snapshot(c)
+    if not recs:
+        return 0
+    n = 0
+    a = rng.choice(recs)
+    b = rng.choice([r for r in recs if r is not a] or [a])
+    g1, g2 = GHOST_PREFIXES
+    u1, u2 = GHOST_URIS
+    attempts = [
+        lambda: c.add_prefix(g1, u1, [g2], [rng.choice(spec.all_u(a))]),  # clash in the last field
+        lambda: c.add_prefix(g1, u1, [g2, rng.choice(spec.all_p(a))], [u2]),  # clash among the CURIE synonyms
+        lambda: c.add_prefix(g1, rng.choice(spec.all_u(a)), [g2], [u1]),  # clash on the canonical URI prefix
+        lambda: c.add_record(api.Record(prefix=g1, uri_prefix=u1, prefix_synonyms=[g2], uri_prefix_synonyms=[u2, rng.choice(spec.all_u(b))])),
+    ]
+    if b is not a:
+        # a merging record that matches two records: rejected whatever `merge` says
+        attempts.append(lambda: c.add_record(api.Record(prefix=g1, uri_prefix=rng.choice(spec.all_u(a)), prefix_synonyms=[rng.choice(spec.all_p(b))], uri_prefix_synonyms=[u1]), merge=True))
+        attempts.append(lambda: c.add_prefix(rng.choice(spec.all_p(a)), u1, [g1], [rng.choice(spec.all_u(b))], merge=True))
+    for f in rng.sample(attempts, k=rng.randint(1, 2)):
+        try:
+            f()
+            probe.S.counters["wl:registration-that-must-be-rejected-was-accepted"] += 1
+        except ValueError:
+            n += 1
+    probe.S.counters["wl:rejected-registrations"] += n
+    return n
 
 
 def plain_subclass(api):
@@ -337,7 +375,11 @@ def overlap_shape(recs):
 def query_strings(recs, d, rng, extra=()):
     allu = [u for r in recs for u in spec.all_u(r)]
     allp = [p for r in recs for p in spec.all_p(r)]
-    qs = {"", "zzz", d, "a" + d, d + "a", rng.choice(UNICODE), d + d, ORIG_PREFIX + d + "1", ORIG_URI + "1", ORIG_PREFIX}
+    qs = {"", "zzz", d, "a" + d, d + "a", rng.choice(UNICODE), d + d}
+    for p in SPECIAL_PREFIXES:
+        qs |= {p, p + d + "1"}
+    for u in SPECIAL_URIS:
+        qs |= {u + "1", u}
     for u in allu:
         qs |= {u, u[:-1], u + "1", u + rng.choice(IDS), u + rng.choice(UNICODE)}
         qs |= {u + ch for ch in "_/aA:"}
